@@ -1,5 +1,5 @@
 (* C15 — lookups are coherent with listings and never ambiguous. *)
-From Coq Require Import List Arith Bool String.
+From Coq Require Import List Arith Bool String Permutation.
 From PyHam Require Import Tax Ortho Loader Lookup.
 From PyHam.proofs Require Import NewickFacts LookupFacts.
 Import ListNotations.
@@ -53,6 +53,12 @@ Proof. exact mrca_set_spec. Qed.
 Print Assumptions c15_mrca_of_genome_set.
 
 Local Open Scope string_scope.
+(* ... whatever the order in which the set of genomes is enumerated *)
+Theorem c15_mrca_set_order_irrelevant : forall t st gs gs',
+  Permutation gs gs' -> get_mrca_genome_set t st gs = get_mrca_genome_set t st gs'.
+Proof. exact mrca_set_perm. Qed.
+Print Assumptions c15_mrca_set_order_irrelevant.
+
 Example c15_nonvacuous :
   build_taxonomy true (SNode "R" [SNode "X" [SNode "A" []; SNode "B" []]; SNode "X" [SNode "C" []; SNode "D" []]]) = Err KeyError /\
   get_genes_by_external_id
